@@ -173,8 +173,9 @@ def process_chunk(args: Tuple[List[Dict[str, Any]], int, int]) -> Dict[str, Any]
                         fail("C08", "const_prefix", rec, entry, {**base, "prefix": prefix.hex()})
                     if not enc["overlap"] and not pdu.startswith(prefix0):
                         fail("C08", "const_prefix_without_request", rec, entry, {**base, "prefix": prefix0.hex()})
-                    # ---- C01: decode(encode(v)) = v, whole PDU consumed
-                    if not enc["overlap"]:
+                    # ---- C01: decode(encode(v)) = v, whole PDU consumed (objects that really overlap cannot come back: exempt
+                    # when the reference agrees that they overlap, not merely because the encoder warned)
+                    if not (enc["overlap"] and (c["ovl"] or c["err"])):
                         dec = codec.real_decode(obj, pdu)
                         st["decodes"] += 1
                         if dec["exc"]:
